@@ -157,7 +157,17 @@ class C07(object):
             desc["sc"] = g.uniform(0, 2048, n).tolist()
             desc["fc"] = g.uniform(0, 2048, n).tolist()
             desc["omega"] = g.uniform(-180, 180, n).tolist()
-            desc["translations"] = [(g.normal(0, 200, 3) * rnd.choice([0, 1, 1])).tolist() for _ in range(ngr)]
+            # grain positions: anywhere, all at the origin, or sharing one or two coordinates (a single layer has the
+            # same t_z for every grain; a column of sub-grains the same t_x, t_y)
+            tr = [g.normal(0, 200, 3) * rnd.choice([0, 1, 1]) for _ in range(ngr)]
+            share = rnd.choice([None, None, (2,), (0,), (0, 1), (1, 2)])
+            if share is not None and ngr:
+                ref_t = g.normal(0, 200, 3) * rnd.choice([0, 1])
+                for t in tr:
+                    if rnd.random() < 0.8:
+                        for ax in share:
+                            t[ax] = ref_t[ax]
+            desc["translations"] = [t.tolist() for t in tr]
             desc["pars"] = {"wedge": rnd.choice([0.0, 2.5]), "chi": rnd.choice([0.0, -1.5]),
                             "omegasign": rnd.choice([1, -1]), "wavelength": rnd.choice([0.2, 0.4]),
                             "tilt_x": rnd.choice([0.0, 0.01]), "tilt_y": rnd.choice([0.0, -0.02]), "tilt_z": 0.005,
@@ -270,12 +280,22 @@ class C07(object):
         enginea.apply_cfg(sim, cfg, strict=0, track_conflicts=0, pct_est=max(50, 40 * n // max(1, cfg["team"])),
                           step_cap=2000000000)
         sim.begin_run()
+        viol = None
         with contextlib.redirect_stdout(io.StringIO()):
             ix = indexing.indexer(gv=gv, hkl_tol=tol)
             ix.ubis = [ubis[gi] for gi in desc["order"]]
-            ix.fight_over_peaks()
+            try:
+                ix.fight_over_peaks()
+            except Exception as e:
+                viol = {"class": "raises", "key": desc["entry"] + ":raises",
+                        "detail": "fight_over_peaks raised %s: %s (%d grains, %d peaks, order %s)" %
+                                  (type(e).__name__, e, len(ubis), n, desc["order"][:8])}
         st = sim.stats()
-        viol = None
+        if viol is not None:
+            meas = enginea.run_measures(st, cfg)
+            meas["route"] = {"fight": 1}
+            return {"digest": enginea.sha(st["digest"], viol["class"]), "sig": enginea.sha(gv, tol, desc["order"]),
+                    "nontrivial": True, "viol": viol, "measures": meas}
         lab = np.asarray(ix.ga)
         # labels index the presented order
         order = desc["order"]
@@ -410,7 +430,9 @@ class C07(object):
                 n = dict(dd)
                 n["gv"] = [dd["gv"][i] for i in idx]
                 return n
-            idx = enginea.ddmin(list(range(len(d["gv"]))), lambda sub: fails(keep(d, sub)), max_tests=60, max_seconds=60)
+            floor = 0 if d["route"] == "kernel" else 1
+            idx = enginea.ddmin(list(range(len(d["gv"]))), lambda sub: len(sub) >= floor and fails(keep(d, sub)),
+                                max_tests=60, max_seconds=60)
             if fails(keep(d, idx)):
                 d = keep(d, idx)
         return d
